@@ -163,8 +163,9 @@ class Subject:
 
     def __init__(self, dm, args, res=None):
         self.dm, self.args, self.res = dm, args, res
-        self.alts = list(dm.alternatives)
-        self.crits = list(dm.criteria)
+        d = dm.to_dict()  # not list(dm.criteria): iterating an _ACArray goes through its label lookup
+        self.alts = d["alternatives"].tolist()
+        self.crits = d["criteria"].tolist()
         self.ekeys = sorted(res.e_) if res is not None else []
         self.rkind = None
         if res is not None:
